@@ -627,6 +627,33 @@ Theorem page_fits_ansi_visible : forall W f l s, is_ansi f -> (1 <= W)%Z -> one_
   render_page W f l = Ok s -> Forall (fun ln => (zlen (strip_sgr ln) <= W - 1)%Z) (split_on 10%N s).
 Proof. exact page_fits_ansi_visible_lemma. Qed.
 Print Assumptions page_fits_ansi_visible.
+(* the help pages: IF the ANSI rendering succeeds THEN the visible text fits - good_layout is asked of the page: it does not
+   follow from the names and descriptions alone (json.dumps of a string default writes backslashes) *)
+Theorem command_help_fits_ansi_visible : forall W f sty app_name ch aliases help subs s,
+  is_ansi f -> (1 <= W)%Z ->
+  (match app_name with Some n => no_nl n | None => True end) -> Forall no_nl (chain_names ch) ->
+  Forall arg_one_line (chain_args ch) -> Forall opt_one_line (own_opts ch) -> Forall opt_one_line (base_opts ch) ->
+  Forall sub_one_line subs ->
+  good_layout (command_page sty app_name ch aliases help subs) ->
+  render_page W f (command_page sty app_name ch aliases help subs) = Ok s ->
+  Forall (fun ln => (zlen (strip_sgr ln) <= W - 1)%Z) (split_on 10%N s).
+Proof.
+  intros W f sty app_name ch aliases help subs s Hk HW H1 H2 H3 H4 H5 H6 Hg Hs.
+  eapply page_fits_ansi_visible_lemma; [exact Hk|exact HW|apply command_page_one_line; eassumption|exact Hg|exact Hs].
+Qed.
+Print Assumptions command_help_fits_ansi_visible.
+Theorem application_help_fits_ansi_visible : forall W f sty app_name display version gopts cmds help s,
+  is_ansi f -> (1 <= W)%Z ->
+  (match app_name with Some n => no_nl n | None => True end) -> Forall opt_one_line gopts ->
+  Forall (fun c => no_nl (ac_name c)) cmds ->
+  good_layout (application_page sty app_name display version gopts cmds help) ->
+  render_page W f (application_page sty app_name display version gopts cmds help) = Ok s ->
+  Forall (fun ln => (zlen (strip_sgr ln) <= W - 1)%Z) (split_on 10%N s).
+Proof.
+  intros W f sty app_name display version gopts cmds help s Hk HW H1 H2 H3 Hg Hs.
+  eapply page_fits_ansi_visible_lemma; [exact Hk|exact HW|apply application_page_one_line; eassumption|exact Hg|exact Hs].
+Qed.
+Print Assumptions application_help_fits_ansi_visible.
 Theorem strip_sgr_line_by_line : forall s, split_on 10%N (strip_sgr s) = map strip_sgr (split_on 10%N s).
 Proof. exact strip_sgr_lines. Qed.
 Print Assumptions strip_sgr_line_by_line.
